@@ -248,6 +248,7 @@ func cmdCheck(args []string) int {
 	noEvidence := fs.Bool("noevidence", false, "do not write the evidence file")
 	solverLog := fs.String("solverlog", "", "write worker 0's SMT-LIB stream here")
 	cpuprof := fs.String("cpuprofile", "", "write a CPU profile")
+	noKnown := fs.Bool("noknown", false, "ignore known_findings.txt (to confirm known findings natively)")
 	fs.Parse(args)
 	if *cpuprof != "" {
 		f, _ := os.Create(*cpuprof)
@@ -271,7 +272,7 @@ func cmdCheck(args []string) int {
 	knownSet := map[string]bool{}
 	knownText := map[string]string{}
 	for _, k := range known {
-		if k.Property == spec.Property {
+		if k.Property == spec.Property && !*noKnown {
 			knownSet[k.ID] = true
 			knownText[k.ID] = k.Text
 		}
